@@ -386,10 +386,11 @@ theorem cmp_int_of_eq (d : Dec) (m n : Int) (h : Dec.cmp d (Dec.ofInt m) = .eq) 
 
 theorem numOpp_err_float (k : Kind) (xop yop : Op) (a b : Dec) (hk : k.hasFloat = true)
     (h : simplifyNumOpp k xop yop a b = .err) : simplifyStrOpp xop yop (Dec.cmp a b) = .err := by
-  have e1 : adjLo k xop a = a := by simp [adjLo, hk]
-  have e2 : adjHi k yop b = b := by simp [adjHi, hk]
+  have e1 : adjLo k xop a = some a := by simp [adjLo, hk]
+  have e2 : adjHi k yop b = some b := by simp [adjHi, hk]
   unfold simplifyNumOpp at h
   rw [e1, e2] at h
+  simp only at h
   unfold numOppCore at h
   split at h
   · cases h
@@ -419,35 +420,37 @@ theorem numOpp_err_float (k : Kind) (xop yop : Op) (a b : Dec) (hk : k.hasFloat 
             · cases h
 
 /-- the integer adjusted lower end: `>=a` starts at `ceil a`, `>a` above `floor a` -/
-theorem lo_int (k : Kind) (xop : Op) (a : Dec) (hk : k.hasFloat = false)
-    (fa : a.exp < 0 → a.fits34 = true) :
-    Dec.cmp (adjLo k xop a) (Dec.ofInt (if xop == .ge then Dec.ceil a else Dec.floor a)) = .eq := by
-  unfold adjLo
+theorem lo_int (k : Kind) (xop : Op) (a lo : Dec) (hk : k.hasFloat = false)
+    (h : adjLo k xop a = some lo) :
+    Dec.cmp lo (Dec.ofInt (if xop == .ge then Dec.ceil a else Dec.floor a)) = .eq := by
+  unfold adjLo at h
   by_cases he : a.exp < 0
-  · simp only [hk, he, Bool.not_false, Bool.true_and, decide_true, if_true]
+  · simp only [hk, he, Bool.not_false, Bool.true_and, decide_true, if_true] at h
     by_cases hx : (xop == .ge) = true
-    · simp only [hx, if_true]; rw [Dec.ceil34_eq a (fa he)]; exact ReflCmp.compare_self
-    · simp only [hx, if_false, Bool.false_eq_true]; rw [Dec.floor34_eq a (fa he)]; exact ReflCmp.compare_self
-  · simp only [hk, he, Bool.not_false, Bool.true_and, decide_false, Bool.false_eq_true, if_false]
+    · simp only [hx, if_true] at h ⊢; exact Dec.ceil34?_eq a lo h
+    · simp only [hx, if_false, Bool.false_eq_true] at h ⊢; exact Dec.floor34?_eq a lo h
+  · simp only [hk, he, Bool.not_false, Bool.true_and, decide_false, Bool.false_eq_true, if_false] at h
+    cases h
     have hi := Dec.isInt_of_exp_nonneg a (by omega)
     rw [Dec.ceil_eq_floor_of_isInt a hi]
     simp only [ite_self]
     exact Dec.cmp_floor_of_isInt a hi
 
-theorem hi_int (k : Kind) (yop : Op) (b : Dec) (hk : k.hasFloat = false)
-    (fb : b.exp < 0 → b.fits34 = true) :
-    Dec.cmp (adjHi k yop b) (Dec.ofInt (if yop == .le then Dec.floor b else Dec.ceil b)) = .eq := by
-  unfold adjHi
+theorem hi_int (k : Kind) (yop : Op) (b hi : Dec) (hk : k.hasFloat = false)
+    (h : adjHi k yop b = some hi) :
+    Dec.cmp hi (Dec.ofInt (if yop == .le then Dec.floor b else Dec.ceil b)) = .eq := by
+  unfold adjHi at h
   by_cases he : b.exp < 0
-  · simp only [hk, he, Bool.not_false, Bool.true_and, decide_true, if_true]
+  · simp only [hk, he, Bool.not_false, Bool.true_and, decide_true, if_true] at h
     by_cases hx : (yop == .le) = true
-    · simp only [hx, if_true]; rw [Dec.floor34_eq b (fb he)]; exact ReflCmp.compare_self
-    · simp only [hx, if_false, Bool.false_eq_true]; rw [Dec.ceil34_eq b (fb he)]; exact ReflCmp.compare_self
-  · simp only [hk, he, Bool.not_false, Bool.true_and, decide_false, Bool.false_eq_true, if_false]
-    have hi := Dec.isInt_of_exp_nonneg b (by omega)
-    rw [Dec.ceil_eq_floor_of_isInt b hi]
+    · simp only [hx, if_true] at h ⊢; exact Dec.floor34?_eq b hi h
+    · simp only [hx, if_false, Bool.false_eq_true] at h ⊢; exact Dec.ceil34?_eq b hi h
+  · simp only [hk, he, Bool.not_false, Bool.true_and, decide_false, Bool.false_eq_true, if_false] at h
+    cases h
+    have hi' := Dec.isInt_of_exp_nonneg b (by omega)
+    rw [Dec.ceil_eq_floor_of_isInt b hi']
     simp only [ite_self]
-    exact Dec.cmp_floor_of_isInt b hi
+    exact Dec.cmp_floor_of_isInt b hi'
 
 /-- the integer cell in terms of the adjusted integer ends `L` (lower) and `H` (upper) -/
 theorem numOpp_err_core (k : Kind) (xop yop : Op) (lo hi : Dec) (L H : Int)
@@ -496,16 +499,18 @@ theorem numOpp_err_core (k : Kind) (xop yop : Op) (lo hi : Dec) (L H : Int)
 
 theorem numOpp_err_int (k : Kind) (xop yop : Op) (a b : Dec) (hk : k.hasFloat = false)
     (hx : isLower xop = true) (hy : isUpper yop = true)
-    (fa : a.exp < 0 → a.fits34 = true) (fb : b.exp < 0 → b.fits34 = true)
     (h : simplifyNumOpp k xop yop a b = .err) (n : Int) :
     ¬ (opHolds xop (Dec.cmp (Dec.ofInt n) a) = true ∧ opHolds yop (Dec.cmp (Dec.ofInt n) b) = true) := by
-  have hcore := numOpp_err_core k xop yop _ _ _ _ (lo_int k xop a hk fa) (hi_int k yop b hk fb) h
-  intro ⟨h1, h2⟩
-  cases xop <;> simp [isLower] at hx <;> cases yop <;> simp [isUpper] at hy <;>
-    simp only [opHolds_ge, opHolds_gt, opHolds_le, opHolds_lt, beq_iff_eq,
-      Dec.ofInt_ge_iff, Dec.ofInt_gt_iff, Dec.ofInt_le_iff, Dec.ofInt_lt_iff] at h1 h2 <;>
-    simp at hcore <;> omega
-
+  unfold simplifyNumOpp at h
+  split at h
+  · rename_i lo hi hlo hhi
+    have hcore := numOpp_err_core k xop yop _ _ _ _ (lo_int k xop a lo hk hlo) (hi_int k yop b hi hk hhi) h
+    intro ⟨h1, h2⟩
+    cases xop <;> simp [isLower] at hx <;> cases yop <;> simp [isUpper] at hy <;>
+      simp only [opHolds_ge, opHolds_gt, opHolds_le, opHolds_lt, beq_iff_eq,
+        Dec.ofInt_ge_iff, Dec.ofInt_gt_iff, Dec.ofInt_le_iff, Dec.ofInt_lt_iff] at h1 h2 <;>
+      simp at hcore <;> omega
+  · cases h
 
 /-! ### kinds -/
 
@@ -581,16 +586,9 @@ theorem ordCmp_nonnum (v w : Atom) (y : Dec) (hv : v.num? = none) (hw : w.num? =
     ordCmp v w = none := by
   cases v <;> simp [Atom.num?] at hv <;> cases w <;> simp [Atom.num?] at hw <;> rfl
 
-theorem small_fits (b : Bound) (a : Dec) (hs : b.small = true) (hn : b.val.num? = some a) :
-    a.exp < 0 → a.fits34 = true := by
-  obtain ⟨op, val⟩ := b
-  cases val <;> simp [Atom.num?] at hn
-  · subst hn; intro h; simp [Dec.ofInt] at h
-  · subst hn; intro _; exact hs
-
 theorem opp_err (re : Bytes → Bytes → Bool) (k : Kind) (lo hi : Bound) (v : Atom)
     (hlo : isLower lo.op = true) (hhi : isUpper hi.op = true)
-    (slo : lo.small = true) (shi : hi.small = true) (hk : Kind.has k v = true)
+    (hk : Kind.has k v = true)
     (h : simplifyOpp k lo hi = .err) :
     ¬ (boundHolds re lo v = true ∧ boundHolds re hi v = true) := by
   unfold simplifyOpp at h
@@ -622,8 +620,7 @@ theorem opp_err (re : Bytes → Bytes → Bool) (k : Kind) (lo hi : Bound) (v : 
             · subst hvn
               rw [ordCmp_num _ _ _ _ rfl ha] at h1
               rw [ordCmp_num _ _ _ _ rfl hb] at h2
-              exact numOpp_err_int k lop hop a b hf' hlo hhi
-                (small_fits ⟨lop, lv⟩ a slo ha) (small_fits ⟨hop, hv⟩ b shi hb) h _ ⟨h1, h2⟩
+              exact numOpp_err_int k lop hop a b hf' hlo hhi h _ ⟨h1, h2⟩
             · rw [has_float, hf'] at hk; cases hk
       · cases h
 
@@ -649,8 +646,7 @@ theorem opp_both_or_err (k : Kind) (lo hi : Bound) :
 
 /-- Every outcome of `SimplifyBounds` is sound for atoms both bounds admit. -/
 theorem simplify_sound (re : Bytes → Bytes → Bool) (k : Kind) (x y : Bound) (v : Atom)
-    (hax : boundAdmits x v = true) (_hay : boundAdmits y v = true) (hk : Kind.has k v = true)
-    (sx : x.small = true) (sy : y.small = true) :
+    (hax : boundAdmits x v = true) (_hay : boundAdmits y v = true) (hk : Kind.has k v = true) :
     match simplifyBounds re k x y with
     | .keepX => boundHolds re x v = true → boundHolds re y v = true
     | .keepY => boundHolds re y v = true → boundHolds re x v = true
@@ -675,13 +671,13 @@ theorem simplify_sound (re : Bytes → Bytes → Bool) (k : Kind) (x y : Bound) 
         simp only [this, Bool.false_eq_true, if_false]
         rcases opp_both_or_err k x y with h | h <;> rw [h]
         · trivial
-        · exact opp_err re k x y v hl hu sx sy hk h
+        · exact opp_err re k x y v hl hu hk h
       · have : ((opInfo x.op).2 == -1) = true := by rw [h1]; decide
         simp only [this, if_true]
         rcases opp_both_or_err k y x with h | h <;> rw [h]
         · trivial
         · intro ⟨h1, h2⟩
-          exact opp_err re k y x v hl hu sy sx hk h ⟨h2, h1⟩
+          exact opp_err re k y x v hl hu hk h ⟨h2, h1⟩
     · have ho' : ((opInfo x.op).2 == -(opInfo y.op).2) = false := by simpa using ho
       simp only [ho', Bool.false_eq_true, if_false]
       cases h : simplifyNe re x y with
